@@ -54,8 +54,8 @@ def _subs(tier):
     S.append(_mk('twice-merge3-bottleneck', 'twice', MERGE3, [('off', 0, 10 ** 6)]))
     S.append(_mk('split-merge', 'split', MERGE, [('a', 0, 3 * T)], zero=['cs']))
     S.append(_mk('split-fanout', 'split', FAN, [('a', 0, 3 * T)], zero=['cs', 'c0']))
+    S.append(_mk('twice-resources', 'twice', resources2(2), [('off', 0, 10 ** 6)], zero=['cs', 'c0']))
     if not q:
-        S.append(_mk('twice-resources', 'twice', resources2(2), [('off', 0, 10 ** 6)], zero=['cs', 'c0']))
         S.append(_mk('split-resources', 'split', resources2(2), [('a', 0, 3 * T)], zero=['cs', 'c0']))
         S.append(_mk('twice-merge-n3', 'twice', dict(MERGE, devices=[dict(MERGE['devices'][0], parts=3)] + MERGE['devices'][1:]),
                      [('off', 0, 10 ** 6)], zero=[]))
